@@ -24,7 +24,8 @@ its break-down threshold on the off-diagonal `beta`):
                    -> (4 sqrt(k) B + 64 n u) nrm per entry.
 * `iterations`     the loop leaves early only when *all* betas are <= 1e-6 or re-orthogonalisation failed; if a
                    reference Lanczos (own implementation, run in float64 and in the operator dtype) has all betas above
-                   max(2e-5, H nrm) (H = 3e-3 / 1e-6 for f32 / f64) the routine must run min(max_iter, n) steps; if the
+                   max(2e-5, H nrm, 32 tol nrm) (H = 3e-3 / 1e-6 for f32 / f64; the tolerated loss of orthogonality `tol`
+                   perturbs the next beta by up to tol nrm) the routine must run min(max_iter, n) steps; if the
                    float64 reference breaks down exactly (beta <= 1e-12 nrm) at dimension d the routine must return k = d.
 * `invariant`      returned k < min(max_iter, n) (single member) or k = d: Q T Q^T v = A v for v in span(Q)
                    -> 1e-6 + (6 sqrt(k) B + 64 n u) nrm;   k = n: Q T Q^T = A up to k (10 B + 64 n u) nrm.
@@ -238,7 +239,9 @@ def analyse(case):
                 y = bdt[j] if j < len(bdt) else 0.0
                 bet.append(min(x, y))
             thr_brk = 4e-6 + 256.0 * n * u * nrm
-            thr_ok = max(2e-5, H_OK[dtn] * nrm)
+            # (the routine tolerates |q_i.q_j| up to tol = 1e-5, which perturbs the NEXT beta by up to tol * nrm and compounds
+            #  over consecutive small betas: a count is only predictable when every beta stays well above that)
+            thr_ok = max(2e-5, H_OK[dtn] * nrm, 32.0 * 1e-5 * nrm)
             healthy = all(b >= thr_ok for b in bet) and nrm > 0
             brk = next((j for j, b in enumerate(bet) if b <= thr_brk), None)
             exact_d = None
